@@ -1735,6 +1735,60 @@ fn generate_merge2(seed: u64, index: u64) -> (String, Vec<Vec<String>>) {
     (text, facts)
 }
 
+/// primitives in rule bodies and in proved facts whose arguments are constructor / function calls,
+/// flat and NESTED (a function lookup inside a constructor inside a primitive): the proof normal
+/// form must lift every call into its own fact before instrumentation
+fn generate_primshape(seed: u64, index: u64) -> (String, Vec<Vec<String>>) {
+    let mut r = Rng::for_case(seed ^ 0x9f1a, index);
+    let merge = ["(max old new)", "(min old new)"][r.below(2)];
+    let mut text = format!("(datatype M (Num i64) (Wrap M) (Pair M M))\n(function g (i64) i64 :merge {merge})\n(relation R (i64))\n(relation Out (i64))\n");
+    let n = r.range(2, 4) as i64;
+    let mut gv: Vec<i64> = Vec::new();
+    for k in 1..=n {
+        let v = r.range(1, 5) as i64;
+        gv.push(v);
+        text.push_str(&format!("(set (g {k}) {v})\n(R {k})\n(Num {k})\n(Num {v})\n(Wrap (Num {k}))\n(Wrap (Num {v}))\n"));
+    }
+    text.push_str("(Pair (Num 1) (Num 2))\n");
+    let wrap = |t: String, d: usize| {
+        let mut t = t;
+        for _ in 0..d {
+            t = format!("(Wrap {t})");
+        }
+        t
+    };
+    let prims = ["!=", "!=", "="];
+    let nrules = r.range(2, 4);
+    for i in 0..nrules {
+        let c = r.range(1, 5) as i64;
+        let d = r.below(2);
+        let body = match r.below(6) {
+            0 => format!("(R x) (!= {} {})", wrap("(Num x)".into(), d), wrap(format!("(Num {c})"), d)),
+            1 => format!("(R x) (> (g x) {c})"),
+            2 => format!("(R x) (< (g x) {c})"),
+            // nested: a function lookup inside a constructor call under a primitive
+            3 => format!("(R x) (!= {} {})", wrap("(Num x)".into(), d), wrap("(Num (g x))".into(), d)),
+            4 => format!("(R x) (= y (g x)) ({} (Num y) (Num (g {})))", prims[r.below(3)], r.range(1, n as usize)),
+            _ => format!("(R x) (!= (Pair (Num x) (Num (g x))) (Pair (Num (g x)) (Num x)))"),
+        };
+        text.push_str(&format!("(rule ({body}) ((Out (+ x {}))) :name \"ps{i}\")\n", 10 * (i + 1)));
+    }
+    text.push_str("(run 1)\n");
+    let mut facts: Vec<Vec<String>> = Vec::new();
+    for k in 1..=n {
+        for i in 0..nrules {
+            facts.push(vec![format!("(Out {})", k + 10 * (i as i64 + 1))]);
+        }
+        let v = gv[(k - 1) as usize];
+        facts.push(vec![format!("(!= (Num {k}) (Num (g {k})))")]);
+        facts.push(vec![format!("(!= (Wrap (Num {k})) (Wrap (Num (g {k}))))")]);
+        facts.push(vec![format!("(> (g {k}) {})", v - 1)]);
+        facts.push(vec![format!("(= (Num {v}) (Num (g {k})))")]);
+        facts.push(vec![format!("(R {k})"), format!("(!= (Num {k}) (Num (g {k})))")]);
+    }
+    (text, facts)
+}
+
 fn main() {
     let o = verif_harness::parse_opts();
     // the engine's own panics are observations; keep the default hook quiet
@@ -1791,6 +1845,15 @@ fn main() {
                 eprintln!(";; merge2 case {i}\n{text};; facts: {facts:?}");
             }
             run_program(&text, &facts, o.seed.wrapping_mul(7919) ^ i as u64, max_muts, &mut st, &mut viols, &mut w, "generated");
+        }
+        let nprim = if o.thorough { 150 } else { 10 };
+        for i in 0..nprim {
+            let (text, facts) = generate_primshape(o.seed, i as u64);
+            bump(&mut st.prog_hist, "flavour:primshape");
+            if o.extra.iter().any(|a| a == "--dump") {
+                eprintln!(";; primshape case {i}\n{text};; facts: {facts:?}");
+            }
+            run_program(&text, &facts, o.seed.wrapping_mul(104729) ^ i as u64, max_muts, &mut st, &mut viols, &mut w, "generated");
         }
         let nprog = if o.thorough { 1500 } else { 90 };
         for i in 0..nprog {
